@@ -10,6 +10,8 @@ import SST.Drv.Handles
 import SST.Drv.Conc
 import SST.Drv.FS
 import SST.Drv.Stack
+import SST.Drv.BufReader
+import SST.Drv.TableDir
 open SST SST.Drv
 
 def handle (line : String) : String :=
@@ -42,6 +44,10 @@ def handle (line : String) : String :=
     | "fs.recimages" => Fs.fsRecImages a
     | "fs.session" => Fs.fsSession a
     | "stack.run" => stackRun a
+    | "bufr.calls" => Bufr.bufrCalls a
+    | "bufr.file" => Bufr.bufrFile a
+    | "bufr.stream" => Bufr.bufrStream a
+    | "tbldir.run" => tblDirRun a
     | "ping" => "pong"
     | _ => "bad-op"
 
